@@ -107,7 +107,7 @@ def jobs(tier):
                 P = ('C13',)
                 stubs = []
                 con = Contract(comb_requires(), None)
-                asg = 'IT_FIELDS(in), g_turn, g_pos, g_done, g_iter, g_last, g_called, g_ok, g_len, g_ncalls, g_ae, g_re, g_lp, vf_exc, vf_exc_counter, g_exc_obj, g_exc_type'
+                asg = 'IT_FIELDS(in), g_turn, g_pos, g_done, g_iter, g_last, g_called, g_ok, g_len, g_ncalls, g_ae, g_re, g_lp, g_cur, vf_exc, vf_exc_counter, g_exc_obj, g_exc_type'
                 if st:
                     con.add(R('g_s == S_NONE && g_nctor == 0 && g_nsucc == 0 && g_ndtor == 0 && g_os == (const void*)st', 'state-pre'))
                     asg += ', g_s, g_state_addr, g_succ_off, g_nctor, g_nsucc, g_ndtor'
